@@ -323,7 +323,10 @@ PROPS["C15"] = {
     "assumptions": ["a message source that fails stays failed (closed gRPC stream)",
                     "an empty chunk makes Read return (0,nil); bufio gives up after 100 such reads - consumer behaviour, not claimed"],
     "level_text": ("Theorems over all message sequences and all read-size sequences (induction over the interleaved run): "
-                   "bytes_unchanged, delivered_is_prefix, chunk_aligned, writer_one_message_per_chunk, split_irrelevant. "
+                   "bytes_unchanged, delivered_is_prefix, chunk_aligned, writer_one_message_per_chunk, split_irrelevant; liveness "
+                   "by a progress measure: drain_delivers_everything (any positive read size reaches the end of the source within "
+                   "bytes + messages + 1 reads and has then delivered every complete chunk exactly once), read_sizes_irrelevant, "
+                   "resplit_irrelevant, gen_drain_delivers_everything for the regenerated Read. "
                    "Model tied to the Go code by op-for-op differential runs through the verif hook."),
 }
 
